@@ -8,6 +8,7 @@ import (
 	"encoding/json"
 	"fmt"
 	"go/constant"
+	"go/token"
 	"go/types"
 	"sort"
 	"strings"
@@ -48,8 +49,9 @@ type Registration struct {
 	Add      ssa.CallInstruction
 	Ctor     *ssa.Function
 	CtorCall *ssa.Call
-	Flags    []bool   // constant bool arguments of the constructor, in order
-	ArgTerms []string // terms of all constructor arguments
+	Flags    []bool      // constant bool arguments of the constructor, in order
+	ArgTerms []string    // terms of all constructor arguments
+	ArgVals  []ssa.Value // per table row: the row's own value of each constructor argument (nil otherwise)
 	Type     types.Type
 	Entry    *ssa.Function // ProcessBuiltinFunction of the registered type
 	Env      *Env          // the function containing the Add, in its calling context below the factory method
@@ -115,6 +117,26 @@ func traceCtor(v ssa.Value) *ssa.Call {
 			v = x.Tuple
 		case *ssa.Call:
 			return x
+		case *ssa.UnOp:
+			// a variable that lives in a cell because a function literal captures it (`pauseFunc, err := NewESDTPauseFunc(…)`
+			// used by a creator closure further down): the one value stored into the cell
+			al, ok := x.X.(*ssa.Alloc)
+			if !ok || x.Op != token.MUL || al.Referrers() == nil {
+				return nil
+			}
+			var stored ssa.Value
+			for _, r := range *al.Referrers() {
+				if st, ok := r.(*ssa.Store); ok && st.Addr == ssa.Value(al) {
+					if stored != nil {
+						return nil
+					}
+					stored = st.Val
+				}
+			}
+			if stored == nil {
+				return nil
+			}
+			v = stored
 		default:
 			return nil
 		}
@@ -151,6 +173,10 @@ func (p *Prog) Registrations() []Registration {
 				if _, isConst := c.Common().Args[0].(*ssa.Const); !isConst {
 					// table-driven registration: Add(entry.name, entry.create()) in a loop over a literal table
 					if rs := p.tableRegistrations(e, c, append(append([]callLevel{}, above...), callLevel{e, c})); len(rs) > 0 {
+						out = append(out, rs...)
+						continue
+					}
+					if rs := p.rowRegistrations(e, c, append(append([]callLevel{}, above...), callLevel{e, c})); len(rs) > 0 {
 						out = append(out, rs...)
 						continue
 					}
@@ -348,6 +374,91 @@ func (p *Prog) tableRegistrations(e *Env, add ssa.CallInstruction, chain []callL
 					if sel := ms.Lookup(nil, "ProcessBuiltinFunction"); sel != nil {
 						r.Entry = unwrapSynthetic(p.SSA.MethodValue(sel))
 					}
+				}
+			}
+		}
+		out = append(out, r)
+	}
+	return out
+}
+
+// rowRegistrations: `for _, row := range rows { f, err := NewX(…, row.flag, …) | row.create(); …; Add(row.name, f) }` over a
+// literal table in any of the shapes structAlts understands (array or slice literal, rows built in place or through a
+// temporary, the loop variable spilled): one Registration per row, with the row's own name, constructor and arguments.
+func (p *Prog) rowRegistrations(e *Env, add ssa.CallInstruction, chain []callLevel) []Registration {
+	nameAlts := e.tableFieldAlts(add.Common().Args[0])
+	if len(nameAlts) < 2 {
+		return nil
+	}
+	call := traceCtor(add.Common().Args[1])
+	if call == nil {
+		return nil
+	}
+	var creatorAlts []structAlt
+	if call.Call.StaticCallee() == nil && !call.Call.IsInvoke() {
+		creatorAlts = e.tableFieldAlts(call.Call.Value)
+		if len(creatorAlts) != len(nameAlts) {
+			return nil
+		}
+	}
+	var out []Registration
+	for k, na := range nameAlts {
+		kc, ok := na.val.(*ssa.Const)
+		if !ok || kc.Value == nil || kc.Value.Kind() != constant.String {
+			return nil
+		}
+		r := Registration{Add: add, Key: constant.StringVal(kc.Value), Chain: chain, Table: true, Env: e}
+		fill := func(ctor *ssa.Call, ce *Env, rowArgs bool) {
+			r.CtorCall = ctor
+			r.Ctor = ctor.Call.StaticCallee()
+			for _, a := range ctor.Call.Args {
+				av, ae := a, ce
+				if rowArgs {
+					if alts := ce.tableFieldAlts(a); len(alts) == len(nameAlts) {
+						av, ae = alts[k].val, alts[k].env
+					}
+				}
+				r.ArgTerms = append(r.ArgTerms, ae.Term(av))
+				r.ArgVals = append(r.ArgVals, av)
+				if bv, ok := boolConst(av); ok {
+					r.Flags = append(r.Flags, bv)
+				}
+			}
+			if r.Ctor != nil && r.Ctor.Signature.Results().Len() > 0 {
+				r.Type = r.Ctor.Signature.Results().At(0).Type()
+				ms := p.SSA.MethodSets.MethodSet(r.Type)
+				if sel := ms.Lookup(nil, "ProcessBuiltinFunction"); sel != nil {
+					r.Entry = unwrapSynthetic(p.SSA.MethodValue(sel))
+				}
+			}
+		}
+		if creatorAlts == nil {
+			if call.Call.StaticCallee() == nil {
+				return nil
+			}
+			fill(call, e, true)
+		} else {
+			var ce *Env
+			var cf *ssa.Function
+			switch cv := creatorAlts[k].val.(type) {
+			case *ssa.MakeClosure:
+				ce = creatorAlts[k].env.SubClosure(cv)
+				cf, _ = cv.Fn.(*ssa.Function)
+			case *ssa.Function:
+				cf = cv
+				te := creatorAlts[k].env
+				ce = &Env{P: p, Fn: cv, Parent: te, depth: te.depth + 1, ctx: te.ctx + "/" + cv.Name()}
+			}
+			if cf == nil || ce == nil {
+				return nil
+			}
+			r.Env = ce
+			for _, ret := range returnsOf(cf) {
+				if len(ret.Results) == 0 {
+					continue
+				}
+				if c2 := traceCtor(retval(ret, 0)); c2 != nil && c2.Call.StaticCallee() != nil {
+					fill(c2, ce, false)
 				}
 			}
 		}
